@@ -1,4 +1,6 @@
 """C06 (history property; see DESIGN.md section 5)."""
+import gen
+import hist
 from props.hist_base import HistPlugin
 
 
@@ -16,3 +18,12 @@ class Plugin(HistPlugin):
             'documents are stored; distinct by canonical JSON.')
     FINDING_BITS = 1 | 2 | 8 | 16 | 64
     UNDECIDED_BITS = 4 | 32 | 128 | 256
+
+    def gen_case(self, rng, i, tier):
+        if rng.random() < 0.5:
+            return {'ops': hist.gen_focus_unique(rng), 'pre5': False}
+        gen.TINY[0] = rng.random() < 0.6
+        try:
+            return HistPlugin.gen_case(self, rng, i, tier)
+        finally:
+            gen.TINY[0] = False
